@@ -839,9 +839,6 @@ func e2RunSession(c *fw.Case, cfg e2Config) *e2Summary {
 		}
 		if (cfg.mode == "async" || cfg.bigSync) && e2NewestWalIsCut(rp) {
 			sum.cutWal++
-			if os.Getenv("VERIF_E2_DEBUG") != "" {
-				fmt.Fprintf(os.Stderr, "cut-wal image #%d after %s %s: %v\n", ev.Seq, ev.Call, ev.Path, rp.Listing())
-			}
 		}
 		imgNo++
 		d := filepath.Join(work, fmt.Sprintf("img-%d", imgNo))
